@@ -818,6 +818,73 @@ func main() {
 	w("def retryLoopHead : List String := %s", leanList(retryHead))
 	w("")
 
+	// ---- CreateTable: which status a new table gets (a break starts paused; an MTT table created with players is balancing
+	// unless it is paused)
+	createRules := []string{}
+	if fd := findFunc(te, "tableEngine", "CreateTable"); fd != nil {
+		ast.Inspect(fd.Body, func(n ast.Node) bool {
+			f, ok := n.(*ast.IfStmt)
+			if !ok {
+				return true
+			}
+			for _, st := range f.Body.List {
+				if a, ok := st.(*ast.AssignStmt); ok && len(a.Lhs) == 1 && len(a.Rhs) == 1 {
+					l := src(a.Lhs[0])
+					if l == "status" || l == "table.State.Status" {
+						createRules = append(createRules, src(f.Cond)+" => "+l+" = "+src(a.Rhs[0]))
+					}
+				}
+			}
+			return true
+		})
+	}
+	w("def createStatusRules : List String := %s", leanList(createRules))
+	// ---- continueGame: what the delayed handler looks at first, when the timer fires (closed, released)
+	handlerHead := []string{}
+	if fd := findFunc(teStage, "tableEngine", "continueGame"); fd != nil {
+		ast.Inspect(fd.Body, func(n ast.Node) bool {
+			fl, ok := n.(*ast.FuncLit)
+			if !ok || !strings.Contains(src(fl), "ShouldPause") || len(handlerHead) > 0 {
+				return true
+			}
+			for i, st := range fl.Body.List {
+				if i >= 2 {
+					break
+				}
+				handlerHead = append(handlerHead, strings.Join(strings.Fields(src(st)), " "))
+			}
+			return false
+		})
+	}
+	w("def continueHandlerHead : List String := %s", leanList(handlerHead))
+	// ---- PlayerRedeemChips: the chips are credited (one `+=`) before the seat manager is told
+	redeemSteps := []string{}
+	for _, st := range stmtSrcs(findFunc(te, "tableEngine", "PlayerRedeemChips")) {
+		one := strings.Join(strings.Fields(st), " ")
+		switch {
+		case strings.Contains(one, "UpdatePlayerHasChips"):
+			redeemSteps = append(redeemSteps, "tell-seat-manager")
+		case strings.Contains(one, "Bankroll") && !strings.HasPrefix(one, "if "):
+			redeemSteps = append(redeemSteps, one)
+		}
+	}
+	w("def redeemSteps : List String := %s", leanList(redeemSteps))
+	// ---- createPlayerGameAction: where the hand id and the round of a recorded action are read from (the state the action
+	// produced, passed in — not the live hand state, which the hand's own goroutine updates: D33)
+	recordReads := []string{}
+	if fd := findFunc(teInt, "tableEngine", "createPlayerGameAction"); fd != nil {
+		ast.Inspect(fd.Body, func(n ast.Node) bool {
+			if a, ok := n.(*ast.AssignStmt); ok && len(a.Lhs) == 1 && len(a.Rhs) == 1 {
+				if l := src(a.Lhs[0]); l == "pga.GameID" || l == "pga.Round" {
+					recordReads = append(recordReads, l+" = "+src(a.Rhs[0]))
+				}
+			}
+			return true
+		})
+	}
+	w("def actionRecordReads : List String := %s", leanList(recordReads))
+	w("")
+
 	// ---- calcGamePlayerIndexes: the test that admits a player to the hand's list (every `if` around an append to the list)
 	listTests := []string{}
 	if fd := findFunc(teInt, "tableEngine", "calcGamePlayerIndexes"); fd != nil {
